@@ -1,0 +1,67 @@
+/**
+ * Verification hooks. Compiled in only when QUILL_VERIF is defined; every use in the library is
+ * inside `#if defined(QUILL_VERIF)`. A hook never changes behaviour: it calls out to a function
+ * installed by a test harness, which may record the event or delay the calling thread.
+ */
+
+#pragma once
+
+#if defined(QUILL_VERIF)
+
+  #include "quill/core/Attributes.h"
+
+  #include <atomic>
+  #include <cstdint>
+
+QUILL_BEGIN_NAMESPACE
+
+namespace verif
+{
+enum Point : int
+{
+  // frontend (caller thread)
+  FE_TS_TAKEN = 1,      // log_statement: after the clock was read, before anything else
+  FE_BLOCKED_RETRY = 2, // log_statement: inside the blocking retry loop (a = thread context)
+  FE_BEFORE_COMMIT = 3, // log_statement: encoded, before finish_and_commit_write
+  FE_FLUSH_WAIT = 4,    // flush_log: inside the wait loop
+  FE_DROPPED = 5,       // log_statement: reservation failed on a dropping queue
+
+  // unbounded queue
+  UQ_BEFORE_PUBLISH_NEXT = 10, // producer: after commit to the old node, before next.store
+  UQ_NEXT_SEEN = 11,           // consumer: non-null next loaded, before the re-read of the old node
+  UQ_BEFORE_DELETE = 12,       // consumer: before the old node is deleted
+
+  // backend worker
+  BW_POLL_BEGIN = 20,
+  BW_AFTER_CACHE_REFRESH = 21, // between the thread context cache refresh and the pass timestamp
+  BW_BEFORE_READ_QUEUE = 22,   // a = thread context
+  BW_AFTER_DECODE_ONE = 23,    // a = thread context
+  BW_AFTER_READ_QUEUE = 24,    // a = thread context, b = bytes read
+  BW_BEFORE_PROCESS_EVENT = 25,
+  BW_AFTER_POP = 26,
+  BW_BATCH_NEXT = 27,
+  BW_IDLE_ENTER = 30,
+  BW_IDLE_ALL_EMPTY = 31, // all queues and transit buffers empty
+  BW_AFTER_FAILURE_CHECK = 32,
+  BW_BEFORE_CLEANUP_CTX = 33,
+  BW_BEFORE_CLEANUP_LOGGERS = 34,
+  BW_EXIT_ENTER = 40,
+  BW_EXIT_DONE = 41
+};
+
+using hook_fn = void (*)(int point, void const* a, uint64_t b);
+
+inline std::atomic<hook_fn> g_hook{nullptr};
+
+inline void hit(int point, void const* a = nullptr, uint64_t b = 0) noexcept
+{
+  if (hook_fn const f = g_hook.load(std::memory_order_relaxed))
+  {
+    f(point, a, b);
+  }
+}
+} // namespace verif
+
+QUILL_END_NAMESPACE
+
+#endif
